@@ -35,6 +35,10 @@ def eos_expr(name: str):
 
 
 def run(rep: core.Report):
+    from rules import shared_freshwrite, shared_readonly
+
+    shared_readonly.run(rep, "R20m", ["phonopy/qha/core.py", "phonopy/qha/eos.py", "phonopy/api_qha.py"], 5)
+    shared_freshwrite.run(rep, "R20l", ["phonopy/qha/core.py"], 0)
     rep.rule("R20a", "E(V0)=E0, E'(V0)=0, V0 E''(V0)=B0, dB/dP|V0=B0' for each EOS as written (differentiation + substitution)", 12)
     rep.rule("R20b", "pressure enters as +P*V/EVAngstromToGPa in both constructors; EVAngstromToGPa = EV*1e21", 3)
     rep.rule("R20c", "electronic (free) energies of shape (T,V) are added row i to temperature i; sign +", 3)
